@@ -1597,8 +1597,13 @@ pub fn generate_family(family: &str, id: &str, tier: &str, rng: &mut Rng) -> Val
     let mut sc = match family {
         "reflink" => gen_reflink(rng),
         "abandon" => gen_abandon(rng),
+        "abandon-chunk" => gen_abandon_chunk(rng),
         _ => gen_same_content(rng, tier),
     };
+    if family == "abandon-chunk" && id == "C20" {
+        // the panic is in write_all (it trusts the count it is given)
+        sc["clients"][0]["steps"][0]["write_all"] = json!(true);
+    }
     sc["check"] = json!(id);
     sc["tier"] = json!(tier);
     sc["engine"] = json!("sysim");
@@ -1708,6 +1713,61 @@ fn gen_abandon(rng: &mut Rng) -> Value {
         let st = json!({"k":"api","op":"write","entry":*rng.pick(&["write","opts","create"]),"key":1,"val":0,"mode":f.1,"opts":{}});
         return json!({"keys":keys,"vals":vals,"prelude":prelude,"clients":[{"bin":f.0,"steps":[st]}],"post":post,"strict_tmp":true,
                "plan":{"kind":"enumerate","mode":"errno"},"oracle":"fault"});
+    }
+    json!({"keys":keys,"vals":vals,"prelude":prelude,"clients":[{"bin":f.0,"steps":steps}],"post":post,"strict_tmp":true,
+           "plan":{"kind":"single","faults":[],"schedule":{"policy":"first"}},"oracle":"strict"})
+}
+
+/// One write future of a streaming async writer is dropped after a single poll (timeout / select!), the caller goes on
+/// with shorter buffers and commits. Under the scheduler the dropped write's background system call is still parked at
+/// the moment of the drop, so the sequence is the same in every execution.
+fn gen_abandon_chunk(rng: &mut Rng) -> Value {
+    let keys = vec!["kept".to_string(), "streamed".to_string()];
+    let len = *rng.pick(&[40u64, 3000, 70_000, 300_000]);
+    let vals = vec![json!({"seed": rng.next_u64() >> 1, "len": len}), json!({"seed": rng.next_u64() >> 1, "len": 21})];
+    let f = *rng.pick(&[("astd", "async"), ("tokio", "async")]);
+    let prelude = vec![json!({"k":"api","op":"write","entry":"write","key":0,"val":1,"bin":"sync","mode":"sync"})];
+    // [lead-in?, the abandoned (large) chunk, then short ones]
+    let mut chunks: Vec<u64> = Vec::new();
+    let mut left = len;
+    if rng.chance(1, 3) {
+        let n = rng.range(1, 8).min(left - 20);
+        chunks.push(n);
+        left -= n;
+    }
+    let ai = chunks.len();
+    let big = rng.range(left / 2, left - 10);
+    chunks.push(big);
+    left -= big;
+    while left > 0 {
+        let n = rng.range(1, 5).min(left);
+        chunks.push(n);
+        left -= n;
+        if chunks.len() > 6 {
+            chunks.push(left);
+            break;
+        }
+    }
+    let chunks: Vec<u64> = chunks.into_iter().filter(|n| *n > 0).collect();
+    let mut st = json!({"k":"api","op":"write","entry":*rng.pick(&["opts","create"]),"val":0,"mode":"async","chunks":chunks,"abandon_chunks":[ai],"opts":{}});
+    if rng.chance(3, 4) {
+        st["key"] = json!(1);
+    } else {
+        st["entry"] = json!("opts");
+    }
+    if rng.chance(1, 2) {
+        st["write_all"] = json!(true);
+    }
+    let mut steps = vec![st];
+    if rng.chance(1, 2) {
+        steps.push(json!({"k":"api","op":"read","key":0,"mode":"async"}));
+    }
+    if rng.chance(1, 2) {
+        steps.push(json!({"k":"api","op":"write","entry":"write","key":0,"val":1,"mode":"async"}));
+    }
+    let mut post = Vec::new();
+    for fl in PURE {
+        post.push(json!({"k":"audit","bin":fl.0,"mode":fl.1,"what":["metadata","read","list"]}));
     }
     json!({"keys":keys,"vals":vals,"prelude":prelude,"clients":[{"bin":f.0,"steps":steps}],"post":post,"strict_tmp":true,
            "plan":{"kind":"single","faults":[],"schedule":{"policy":"first"}},"oracle":"strict"})
